@@ -97,7 +97,32 @@ def _loops(func: ast.AST):
     return out
 
 
+def _augmented(func: ast.AST) -> ast.AST:
+    """A copy of the function in which `c = c + e` / `c = e + c` on a plain name is written `c += e` (an integer cursor
+    is advanced the same way by both; the copy is only used by this analysis)."""
+    import copy
+
+    new = copy.deepcopy(func)
+
+    class T(ast.NodeTransformer):
+        def visit_Assign(self, node):  # noqa: N802
+            if len(node.targets) == 1 and isinstance(node.targets[0], ast.Name) and isinstance(node.value, ast.BinOp) and isinstance(node.value.op, ast.Add):
+                name = node.targets[0].id
+                left, right = node.value.left, node.value.right
+                if isinstance(left, ast.Name) and left.id == name:
+                    return ast.copy_location(ast.AugAssign(target=ast.Name(id=name, ctx=ast.Store()), op=ast.Add(), value=right), node)
+                if isinstance(right, ast.Name) and right.id == name:
+                    return ast.copy_location(ast.AugAssign(target=ast.Name(id=name, ctx=ast.Store()), op=ast.Add(), value=left), node)
+            return node
+
+    new = T().visit(new)
+    ast.fix_missing_locations(new)
+    return new
+
+
 def check_cursor_loops(ctx: Ctx, rule: str, con: str, func: ast.AST, *, min_loops: int = 1, only: set[str] | None = None, force: set[str] | None = None) -> int:
+    if any(isinstance(s, ast.Assign) and len(s.targets) == 1 and isinstance(s.targets[0], ast.Name) and isinstance(s.value, ast.BinOp) and isinstance(s.value.op, ast.Add) and s.targets[0].id in {getattr(s.value.left, "id", None), getattr(s.value.right, "id", None)} for s in ast.walk(func)):
+        func = _augmented(func)
     cfg = cfg_of(func)
     n_cursors = 0
     all_cursor_names: set[str] = set()
